@@ -5,6 +5,7 @@
 import MitmVerif.Lemmas.C26Msg
 import MitmVerif.Lemmas.C26Hist
 import MitmVerif.Lemmas.C26Live
+import MitmVerif.Lemmas.C26Comp
 import MitmVerif.Props.C25
 import MitmVerif.Props.C27
 set_option linter.unusedVariables false
@@ -32,6 +33,9 @@ def exampleForwardOk : Bool :=
 
 example : exampleForwardOk = true := by decide +kernel
 example : liveCheck exampleResponse = true := by decide +kernel
+-- www.a.io, then a.io (pointer to offset 4), then x.a.io (label + pointer)
+example : cnames [] 0 [[[0x77,0x77,0x77],[0x61],[0x69,0x6f]], [[0x61],[0x69,0x6f]], [[0x78],[0x61],[0x69,0x6f]]] =
+    [3,0x77,0x77,0x77,1,0x61,2,0x69,0x6f,0, 0xc0,4, 1,0x78,0xc0,4] := by decide +kernel
 -- the specification rejects forward pointers and truncated records; the layer closes on a parse error
 example : DnsRef.decode [0,1,1,0,0,1,0,0,0,0,0,0, 0xc0,0x0e, 0,1,0,1] = none := by decide +kernel
 example : forwardUdp noIdna [0,1,1,0,0,1,0,0,0,0,0,0, 0xc0,0x0c, 0,1,0,1] = .done [] true := by decide +kernel
@@ -280,8 +284,6 @@ theorem delivered_frames (I : Idna) : ∀ (bs : List Bytes), (∀ b ∈ bs, 0 < 
 
 /-! ### round 3: what a compressing encoder may write -/
 
-/-- the two bytes of a compression pointer to offset `t`: `struct.pack("!H", 0xC000 | t)` -/
-def ptrBytes (t : Nat) : Bytes := [UInt8.ofNat (192 ||| (t / 256)), UInt8.ofNat (t % 256)]
 
 private theorem or192 : ∀ x : Fin 64, 192 ||| x.val = 192 + x.val := by decide
 
@@ -440,5 +442,17 @@ theorem spec_readable_reencode_stable (I : Idna) (b : Bytes) (d : DnsRef.RMsg) (
     · exact hplain _ _ hrel.an r hr
     · exact hplain _ _ hrel.ns r hr
   · exact hplain _ _ hrel.ar r hr
+
+/-- **C26 (the reference compressing encoder is read back).** `cname` is an RFC 1035 §4.1.4 name encoder (the twin of
+    the compressing encoder the harness builds its server-style messages with, tied by driver op `cnames`): it writes
+    labels until it finds the remaining suffix in its table and then a pointer. If every table entry points below
+    16384 and below the current position at a place where the specification reads exactly that suffix, the
+    specification reads the encoded name as the name that was encoded. (Name level only: there is no theorem about a
+    whole-message compressing encoder; `DNSMessage.packed` does not compress.) -/
+theorem reference_compressor_read (buf : Bytes) (tbl : CTable) (pos : Nat) (ls : List Bytes) (rest : Bytes)
+    (hb : buf.drop pos = (cname tbl pos ls).1 ++ rest) (hok : LabelsOk ls)
+    (htbl : ∀ s t, tbl.lookup s = some t → t < 16384 ∧ t < pos ∧ ∃ n, DnsRef.name buf t = some (s, n)) :
+    DnsRef.name buf pos = some (ls, (cname tbl pos ls).1.length) :=
+  cname_read buf tbl pos ls rest hb hok htbl
 
 end MitmVerif.Props.C26
